@@ -5,6 +5,7 @@ import crosscut as cc
 PID = "C17"
 MODEL_TARGETS = cc.ALL_MODELS
 PROPS_TARGETS = ["Props_C17"]
+SUPPORT_TARGETS = ["FloatExact"]
 TRUSTED_BASE = ["numpy semantics of each test are modelled (per-test properties)"]
 ASSUMPTIONS = ["values on the dyadic grid so that the transformations are exact in float64 (the property states this "
                "restriction itself); offsets are grid values / whole seconds",
